@@ -126,7 +126,7 @@ func c09Site(k int, call []rj.Stmt, extra *[]*rj.File, id int) []rj.Stmt {
 }
 
 // name forms: how the callee's name is spelt at the call site
-const c09NNames = 5
+const c09NNames = 6
 
 func c09Name(form int, abs string, referrer string, kind int) (rj.Expr, bool) {
 	// callee lives at /sub/c.jet ; referrers at /t.jet, /sub/t.jet, /sub/deep/t.jet
@@ -159,8 +159,10 @@ func c09Name(form int, abs string, referrer string, kind int) (rj.Expr, bool) {
 		}
 	case 3:
 		return rj.V("nameVar"), true
-	default:
+	case 4:
 		return &rj.Bin{Op: "+", L: rj.V("dir"), R: rj.S("c.jet")}, true
+	default: // the name depends on the caller's context: it must be evaluated before the callee's context is in place
+		return &rj.Tern{C: &rj.Bin{Op: "==", L: &rj.Dot{}, R: rj.S("CTX")}, A: rj.S("/missing.jet"), B: rj.S(abs)}, true
 	}
 }
 
@@ -221,10 +223,11 @@ var c09Space = registerSpace(&e1Space{
 		}
 		return c09Build(ix[0], ix[1], ix[2], ix[3], ix[4], ix[5], ix[6])
 	},
+	Extra: e1EveryEntry,
 })
 
 func C09(r *core.Run) map[string]interface{} {
-	r.Rule = "call kind (include, exec, includeIfExists as action and as condition) x call site nested <=2 deep over 7 frames (top, range, block, try, include, content, if) x context x 5 name forms x 3 referrer depths x 26 callee shapes (return at every position, return followed by each statement kind, extends chains 1-3, declarations, caller blocks, failing, missing); after the call the caller probes its variables, context and blocks; distinct = distinct reference outcomes"
+	r.Rule = "call kind (include, exec, includeIfExists as action and as condition) x call site nested <=2 deep over 7 frames (top, range, block, try, include, content, if) x context x 6 name forms (incl. one computed from the caller's context) x 3 referrer depths x 26 callee shapes (return at every position, return followed by each statement kind, extends chains 1-3, declarations, caller blocks, failing, missing); after the call the caller probes its variables, context and blocks; distinct = distinct reference outcomes"
 	runSpace(r, c09Space)
 	return map[string]interface{}{"callee_shapes": c09NCallee, "sites": c09NSites, "traces_validated_against_impl": r.Evals()}
 }
